@@ -104,14 +104,33 @@ func (n *ParallelNode) Run(ctx context.Context) error {
 	defer func() {
 		close(workerJobs)
 		close(coordinatorJobs)
-		workerWg.Wait()
-		coordinatorWg.Wait()
+		// Wait for the workers and the coordinator to stop and keep collecting
+		// errors in the meantime. The coordinator reports every failed message
+		// with a blocking send, if nobody received the errors while we wait it
+		// could never return once the buffer of errs is full.
+		stopped := make(chan struct{})
+		go func() {
+			workerWg.Wait()
+			coordinatorWg.Wait()
+			close(stopped)
+		}()
+		collect := func(workerErr error) {
+			err = cerrors.LogOrReplace(err, workerErr, func() {
+				n.logger.Warn(ctx).Err(workerErr).Msg("parallel worker node failed")
+			})
+		}
+		for running := true; running; {
+			select {
+			case workerErr := <-errs:
+				collect(workerErr)
+			case <-stopped:
+				running = false
+			}
+		}
 		for {
 			select {
 			case workerErr := <-errs:
-				err = cerrors.LogOrReplace(err, workerErr, func() {
-					n.logger.Warn(ctx).Err(workerErr).Msg("parallel worker node failed")
-				})
+				collect(workerErr)
 			default:
 				return
 			}
@@ -143,6 +162,17 @@ func (n *ParallelNode) Run(ctx context.Context) error {
 				return err
 			}
 			return noWorkerRunningErr
+		case workerErr := <-errs:
+			// A message failed while we were waiting for a free worker. We
+			// have to keep receiving errors here, otherwise the coordinator
+			// blocks once the buffer of errs is full, the workers block
+			// handing their jobs to the coordinator and no worker ever gets
+			// free again. Nack the message we could not submit and stop.
+			err = msg.Nack(workerErr, n.ID())
+			if err != nil {
+				return err
+			}
+			return workerErr
 		}
 	}
 }
